@@ -163,6 +163,18 @@ Lemma view_operand_wf {T} (v : view pfx T) : view_wf pfx T pzero bits ok v ->
   exists b, wf_under pfx T bits ok b (v_tree v).
 Proof. intros H. exact (proj1 (proj2 H)). Qed.
 
+(** [view_at] of a well-formed whole map yields a well-formed view (as do [find], [left],
+    [right] of a well-formed view: [ViewsThm.v_find_spec], [v_side_spec]) *)
+Lemma view_at_wf {T} (Tm : tree pfx T) q v :
+  wf_root pfx T bits ok Tm -> ok q ->
+  view_at pfx T peq contains is_bit_set plen Tm q = Some v -> view_wf pfx T pzero bits ok v.
+Proof.
+  intros HT Hq E.
+  pose proof (v_find_spec pfx T _ _ _ _ _ _ _ _ _ LAWS (view_of Tm) q
+                (view_wf_root pfx T pzero bits ok Tm HT) Hq) as H.
+  unfold view_at in E. rewrite E in H. exact (proj1 H).
+Qed.
+
 (* ------------------------------------------------------------------------------------------ *)
 (** * union *)
 
@@ -585,6 +597,7 @@ Qed.
 End SX.
 
 Print Assumptions lpm_ann_get_lpm.
+Print Assumptions view_at_wf.
 Print Assumptions union_item_left.
 Print Assumptions union_item_right.
 Print Assumptions union_presence.
